@@ -115,6 +115,10 @@ def regf(exclude=()):
 
     sf["ceil_div"] = ceil_div
     sf["min2"] = lambda it, a, b: VInt(z3.If(a.z < b.z, a.z, b.z))
+    from pyvc import models as _m
+    sf["be_value4"] = lambda it, s: VInt(_m.be_int(s.z, 4))
+    sf["all_bytes4"] = lambda it, s: VBool(z3.And([z3.And(z3.StrToCode(z3.SubString(s.z, i, 1)) >= 0,
+                                                          z3.StrToCode(z3.SubString(s.z, i, 1)) <= 255) for i in range(4)]))
     sf["noise_ok"] = lambda it, n, c: VBool(_noise_ufs()[0](n.z, c.z))
     sf["noise_dec"] = lambda it, n, c: VStr(_noise_ufs()[1](n.z, c.z), "bytes")
     return reg
@@ -143,6 +147,18 @@ CONTRACTS = [
              requires=["self._can_send_frames", f"len(frame) < {U32}"],
              effects=[("write", ["be4(len(frame)) + frame"])],
              note="exactly one transport.write, of be4(len(frame)) + frame"),
+    Contract("lemma:be4_definition_injective", props=[PROP], source_module="wormhole/_dilation/encode.py",
+             params={"a": "bytes", "b": "bytes"},
+             source_text="""
+             def be4_definition_injective(a, b):
+                 return (a, b)
+             """,
+             requires=["len(a) == 4 and len(b) == 4", "all_bytes4(a) and all_bytes4(b)", "be_value4(a) == be_value4(b)"],
+             ensures=[("same-value-same-bytes", "a == b"), ("value-in-range", f"0 <= be_value4(a) and be_value4(a) < {U32}")],
+             note="the DEFINITION of '>L' (value = b0*2^24 + b1*2^16 + b2*2^8 + b3, each byte 0..255) is injective with range "
+                  "0..2^32-1, so `unpack` is a function and pack/unpack as defined are mutually inverse: the round-trip facts the "
+                  "struct model adds at each use (pyvc/models.py be4_of/unbe4_of) follow from the definition; what stays assumed "
+                  "is only that struct implements this definition"),
     Contract("lemma:frame_roundtrip", props=[PROP], source_module="wormhole/_dilation/connection.py",
              params={"fr": "obj[_Framer]", "f": "bytes", "rest": "bytes"},
              source_text="""
@@ -280,6 +296,34 @@ CONTRACTS = [
              ensures_raise={"Disconnect": [("only-on-a-rejected-handshake", "self._noise.failed")]},
              ensures=[("handshake-token", "result is not None and isinstance(result, Handshake)"),
                       ("accepted-means-nothing-rejected", "self._noise.failed == old(self._noise.failed)")]),
+    Contract("lemma:multi_packet_content", props=[PROP], source_module="wormhole/_dilation/connection.py",
+             params={"sent": "bytes", "got": "bytes", "frame": "bytes", "n0": "int", "N": "int"},
+             source_text="""
+             def multi_packet_content(sent, got, frame, n0, N):
+                 k = 0
+                 while k < N:          # induction over the packets; the asserts are proved (assert_mode="prove"), then used
+                     assert noise_dec(n0 + k, frame[65535 * k:65535 * (k + 1)]) == sent[65519 * k:65519 * (k + 1)]
+                     assert got[65519 * k:65519 * (k + 1)] == noise_dec(n0 + k, frame[65535 * k:65535 * (k + 1)])
+                     assert got[:65519 * (k + 1)] == got[:65519 * k] + got[65519 * k:65519 * (k + 1)]
+                     assert sent[:65519 * (k + 1)] == sent[:65519 * k] + sent[65519 * k:65519 * (k + 1)]
+                     k += 1
+                 return got
+             """, assert_mode="prove",
+             requires=["N >= 1 and 65519 * (N - 1) < len(sent) and len(sent) <= 65519 * N",
+                       "len(got) == len(sent)",
+                       "forall(lambda j: implies(0 <= j and j < N, noise_dec(n0 + j, frame[65535 * j:65535 * (j + 1)]) == "
+                       "sent[65519 * j:65519 * (j + 1)]))",
+                       "forall(lambda j: implies(0 <= j and j < N, got[65519 * j:65519 * (j + 1)] == "
+                       "noise_dec(n0 + j, frame[65535 * j:65535 * (j + 1)])))"],
+             ensures=[("plaintext-recovered-for-every-length", "result == sent")],
+             loops={0: {"header": "k < N", "invariant": ["0 <= k and k <= N", "got[:65519 * k] == sent[:65519 * k]"]}},
+             note="composition of the two proved postconditions for one frame and nonce counters in step (sender's tx == "
+                  "receiver's rx == n0): send_record `every-packet-opens-to-its-slice-at-its-nonce` (3rd premise, message = sent, "
+                  "N = ceil(len/65519) packets), decrypt_message `multi-packet-plaintext-is-the-slices-opened-at-consecutive-"
+                  "nonces` (4th premise, got = the plaintext handed to parse_record, same packet count by "
+                  "packet_boundaries_coincide), lengths by the two length clauses; conclusion: the receiver parses exactly the "
+                  "bytes the sender encoded, for every length (induction over the packets = the loop invariant). With "
+                  "record_roundtrip: decrypt_message(frame of send_record(r)) == r"),
     Contract("lemma:packet_boundaries_coincide", props=[PROP], source_module="wormhole/_dilation/connection.py",
              params={"L": "int", "k": "int"},
              source_text="""
@@ -685,6 +729,11 @@ def models_be4(it, z):
     return models.be4_of(it, z)
 
 
+for _c in CONTRACTS:
+    if _c.target.endswith(("_Record.send_record", "_Record.decrypt_message", "lemma:multi_packet_content")):
+        _c.qf_feasibility = True      # branch pruning without the quantified per-packet facts (only ever keeps more paths)
+
+
 def regf_lemma():
     return regf(exclude=("wormhole/_dilation/connection.py:parse_record",
                          "wormhole/_dilation/connection.py:encode_record"))
@@ -750,10 +799,37 @@ def tasks():
 
 
 TRUSTED = ["z3/cvc5", "pyvc semantics of the Python subset (slicing normalisation, bytes as code-point strings)",
-           "struct.pack/unpack('>L'): 4 bytes, mutually inverse (assumed contract, ground instances)",
+           "pyvc semantics of Automat dispatch (state set first, outputs in order, collector) and of generators consumed by a "
+           "for loop: the generator body and the loop body are run interleaved, as CPython does (pyvc/interp.py for_generator; "
+           "refused when a yield sits inside try/with); loops inside are cut with their own invariants plus those of every "
+           "enclosing generator-for, and every location an iteration changes must have been havocked (loop frame obligation)",
+           "struct.pack/unpack('>L') implement the big-endian definition value = b0*2^24 + b1*2^16 + b2*2^8 + b3 (library "
+           "axiom); that this definition is injective with range 0..2^32-1 - hence the round trip - is proved "
+           "(lemma:be4_definition_injective); the model still adds the round-trip instances at each use for speed",
            "utf-8 codec: decode(encode(s)) == s (assumed contract)",
-           "Noise: encrypt adds 16 bytes; decrypt either raises NoiseInvalidMessage or returns len-16 bytes; forgery without "
-           "the key raises (AEAD idealisation)"]
-ASSUMPTIONS = ["Noise AEAD strength", "content equality across the multi-packet split/merge is not proved (packet boundaries "
-               "and counts are); _Framer.add_and_parse / DilatedConnectionProtocol.dataReceived loops are covered by C12's "
-               "later machine-level tasks when built"]
+           "Noise (AEAD with stateful nonce counters, ghost fields tx/rx/failed): encrypt at sending nonce n returns c with "
+           "len(c) == len(p) + 16, noise_ok(n, c) and noise_dec(n, c) == p, and advances tx; decrypt at receiving nonce n "
+           "raises NoiseInvalidMessage iff not noise_ok(n, c), else returns noise_dec(n, c) (16 bytes shorter) and advances rx; "
+           "read_message either rejects the handshake or accepts it; write_message returns at most 65535 bytes; that only a "
+           "holder of the dilation key can produce a c with noise_ok(n, c) is the AEAD idealisation (not proved)",
+           "Twisted: an exception escaping dataReceived makes the reactor drop the connection; transport.loseConnection() "
+           "stops further dataReceived calls"]
+ASSUMPTIONS = [
+    "Noise AEAD strength (see TRUSTED)",
+    "multi-packet content equality is proved in three steps, not as one run of both real bodies in a single harness: "
+    "send_record (every packet k opens at nonce tx0+k to message[65519k:65519(k+1)]), decrypt_message (plaintext slice k == "
+    "noise_dec(rx0+k, frame[65535k:65535(k+1)])), and lemma:multi_packet_content (induction over the packets: the plaintext "
+    "parsed == the message encoded, every length) whose premises are exactly those two postconditions with tx0 == rx0; "
+    "that parse_record is a function of its argument (no hidden state) is what lets record_roundtrip finish the argument",
+    "dataReceived: a key holder's frame that decrypts but does not parse (unknown type byte, short field, non-UTF8 "
+    "subprotocol) raises ValueError / UnicodeDecodeError out of dataReceived, a second KCM or a record before any KCM raises "
+    "automat.NoTransition; in each case nothing at all happens after the offending token (proved) and the connection is "
+    "dropped by Twisted (trusted), not by loseConnection()",
+    "preconditions of the inbound loops (stated, established by DilatedConnectionProtocol.connectionMade, which is not under "
+    "contract: it builds the framer / record objects with attrs validators and zope interfaces): the role is set, framer and "
+    "record machines are in lock step (framer want_frame <=> record past want_prologue_*), _can_send_frames <=> want_frame, "
+    "Noise has rejected nothing so far, selected <=> a manager is set",
+    "any chunking: proved per call of add_and_parse for an arbitrary buffered remainder and an arbitrary chunk (old buffer + "
+    "data == consumed handshake bytes ++ be4-framed frames yielded in order ++ new remainder, remainder holds no complete "
+    "token); the composition over a sequence of calls is the induction this per-call statement is the step of (argued)",
+    "Connector.build_protocol (psk = dilation key, leader = initiator, opposite prologues) is not under contract here"]
